@@ -755,7 +755,7 @@ class Machine:
     """One execution of one function.  mode 'ssa' | 'reg'; semantics 'isa' | 'mix'."""
 
     def __init__(self, mode: str, xlen: int = 32, semantics: str = "isa", garbage_seed: int = 0,
-                 fuel: int = 20000, stream_seed: int = 0, zero_rule: bool = True):
+                 fuel: int = 40000, stream_seed: int = 0, zero_rule: bool = True):
         self.zero_rule = zero_rule  # ssa mode: a value typed `zero` reads as 0 (False: pure dataflow, types ignored)
         assert mode in ("ssa", "reg") and semantics in ("isa", "mix") and xlen in (32, 64)
         self.mode, self.xlen, self.sem = mode, xlen, semantics
